@@ -113,9 +113,23 @@ func sortKeyCond(kind, attr string, pool []string, r *rand.Rand, values val.Item
 		if a > b {
 			a, b = b, a
 		}
-		values[":lo"], values[":hi"] = val.Str(a), val.Str(b)
+		if ixTypes[attr] != "" {
+			// typed sort keys are ordered by value / by bytes, not by the pool texts
+			va, vb := ixV(attr, a), ixV(attr, b)
+			swap := va.Str > vb.Str // binaries: byte order
+			if va.K == val.KN {
+				swap = val.MustDec(va.Str).Cmp(val.MustDec(vb.Str)) > 0
+			}
+			if swap {
+				a, b = b, a
+			}
+		}
+		values[":lo"], values[":hi"] = ixV(attr, a), ixV(attr, b)
 		return &refmodel.Cond{Op: "between", Args: []refmodel.Operand{p, {Kind: "val", Val: ":lo"}, {Kind: "val", Val: ":hi"}}}
 	case "begins":
+		if ixTypes[attr] == "N" {
+			return nil // begins_with is defined for strings and binaries only
+		}
 		pres := []string{"1", "a", "ab", "9", "b", "\U0001F44D"}
 		if ixBig {
 			// prefixes of the scaled pools: a whole pool member, all but its last byte, a 64-byte prefix of the long ones
@@ -125,10 +139,10 @@ func sortKeyCond(kind, attr string, pool []string, r *rand.Rand, values val.Item
 				pres = append(pres, m[:64])
 			}
 		}
-		values[":pre"] = val.Str(mon.Pick(r, pres))
+		values[":pre"] = ixV(attr, mon.Pick(r, pres))
 		return &refmodel.Cond{Op: "begins", Args: []refmodel.Operand{p, {Kind: "val", Val: ":pre"}}}
 	}
-	values[":sk"] = val.Str(mon.Pick(r, append(append([]string{}, pool...), "5", "aa")))
+	values[":sk"] = ixV(attr, mon.Pick(r, append(append([]string{}, pool...), "5", "aa")))
 	return &refmodel.Cond{Op: "cmp", Cmp: kind, Args: []refmodel.Operand{p, {Kind: "val", Val: ":sk"}}}
 }
 
@@ -221,6 +235,13 @@ func (p *c02) RunCase(ctx *runner.Ctx) runner.CaseResult {
 	}
 	spec := ixSpec("tbl02", true)
 	nWrites := 15 + r.Intn(30)
+	if ctx.Case%4 == 2 {
+		// typed keys: number / binary sort key, index keys and sometimes partition key (see useTypedPools)
+		defer useTypedPools(r)()
+		spec = ixSpec("tbl02", true)
+		x.r.Counters["typed_key_states"]++
+		x.set("key_types", fmt.Sprintf("h=%s r=%s g=%s s=%s", ixTypes["h"], ixTypes["r"], ixTypes["g"], ixTypes["s"]))
+	}
 	if ctx.Case%20 == 7 {
 		// scaled state: hundreds of writes over 40-260 sort keys per partition (see useBigPools)
 		defer useBigPools(r)()
@@ -276,7 +297,7 @@ func (p *c02) RunCase(ctx *runner.Ctx) runner.CaseResult {
 						if fi > 0 && rev && r.Intn(2) == 0 {
 							continue
 						}
-						values := val.Item{":h": val.Str(hv)}
+						values := val.Item{":h": ixV(src.hashAttr, hv)}
 						kc := keyCondEq(src.hashAttr, ":h")
 						if sc := sortKeyCond(sk, src.rngAttr, src.rngPool, r, values); sc != nil {
 							if r.Intn(4) == 0 {
